@@ -34,7 +34,14 @@ ASSUMPTIONS = [
 ]
 
 POSTFIX_CHARS = list("abcxyzABCXYZ0123456789_-")
-postfix = st.lists(st.sampled_from(POSTFIX_CHARS), min_size=1, max_size=12).map("".join)
+# half of the postfixes come from a small pool of names that are prefixes / suffixes /
+# underscore-delimited tails of one another (particle ids such as "1", "X02_1", "11"),
+# so that any lookup by partial match is exposed
+POSTFIX_POOL = ["1", "2", "11", "01", "1_1", "X02_1", "a_1", "b_a_1", "1_", "_1", "a", "a_b", "b", "A", "x-1", "1-1", "meta", "fractions", "1_meta"]
+postfix = st.one_of(
+    st.lists(st.sampled_from(POSTFIX_CHARS), min_size=1, max_size=12).map("".join),
+    st.sampled_from(POSTFIX_POOL),
+)
 
 SPECIALS = np.array([np.nan, np.inf, -np.inf, -0.0, 0.0, 5e-324, -5e-324, 1.0, -1.0, 1e308, 2.2250738585072014e-308])
 
